@@ -452,4 +452,128 @@ theorem tdDays_neg (x : Int) (hx : x < 0) : tdDays x < 0 := by
 theorem tdDays_nonneg (x : Int) (hx : 0 ≤ x) : 0 ≤ tdDays x := by
   unfold tdDays; unfold DAY at *; omega
 
+/-! ### the checked loops (`loopBranchC`, repair F15): total without any hypothesis on the step -/
+
+theorem iterUpC_eq (step : Int → Int) (hinc : ∀ t, t < step t) (t1 : Int) :
+    ∀ (f : Nat) (t : Int), iterUpC step t1 f t = .ok (iterUp step t1 f t)
+  | 0, _ => rfl
+  | f + 1, t => by
+    unfold iterUpC iterUp
+    have hs : ¬ step t ≤ t := by have := hinc t; omega
+    by_cases hle : t ≤ t1
+    · rw [if_pos hle, if_pos hle, if_neg hs, iterUpC_eq step hinc t1 f (step t)]; rfl
+    · rw [if_neg hle, if_neg hle]
+
+theorem iterDownC_eq (step : Int → Int) (hdec : ∀ t, step t < t) (t1 : Int) :
+    ∀ (f : Nat) (t : Int), iterDownC step t1 f t = .ok (iterDown step t1 f t)
+  | 0, _ => rfl
+  | f + 1, t => by
+    unfold iterDownC iterDown
+    have hs : ¬ step t ≥ t := by have := hdec t; omega
+    by_cases hle : t ≥ t1
+    · rw [if_pos hle, if_pos hle, if_neg hs, iterDownC_eq step hdec t1 f (step t)]; rfl
+    · rw [if_neg hle, if_neg hle]
+
+/-- for a step that always moves one way the per-step check never fires: the checked loop is the plain one -/
+theorem loopBranchC_eq (step : Int → Int) (h : (∀ t, t < step t) ∨ (∀ t, step t < t)) (t0 t1 : Int) :
+    loopBranchC step t0 t1 = loopBranch step t0 t1 := by
+  unfold loopBranchC loopBranch
+  rcases h with hinc | hdec
+  · have a : ¬ step t0 ≤ t0 := by have := hinc t0; omega
+    have b : step t0 ≥ t0 := by have := hinc t0; omega
+    by_cases h1 : t1 > t0
+    · rw [if_pos h1, if_pos h1, if_neg a, iterUpC_eq step hinc]; rfl
+    · rw [if_neg h1, if_neg h1]
+      by_cases h2 : t1 < t0
+      · rw [if_pos h2, if_pos h2, if_pos b]
+        unfold iterDownC
+        have : t0 ≥ t1 := by omega
+        rw [if_pos this, if_pos b]
+      · rw [if_neg h2, if_neg h2]
+  · have a : step t0 ≤ t0 := by have := hdec t0; omega
+    have b : ¬ step t0 ≥ t0 := by have := hdec t0; omega
+    by_cases h1 : t1 > t0
+    · rw [if_pos h1, if_pos h1, if_pos a]
+      unfold iterUpC
+      have : t0 ≤ t1 := by omega
+      rw [if_pos this, if_pos a]
+    · rw [if_neg h1, if_neg h1]
+      by_cases h2 : t1 < t0
+      · rw [if_pos h2, if_pos h2, if_neg b, iterDownC_eq step hdec]; rfl
+      · rw [if_neg h2, if_neg h2]
+
+/-- what the checked forward loop returns for ANY step: either the exact range (elements `step^i t`, all `≤ t1`, the
+next one beyond, strictly increasing), or `ValueError` because some iterate inside the range failed to move forward -/
+theorem iterUpC_spec (step : Int → Int) (t1 : Int) : ∀ (f : Nat) (t : Int), (t1 + 1 - t).toNat ≤ f →
+    (∃ l, iterUpC step t1 f t = .ok l ∧ IsRangeUp step t t1 l ∧ l.Pairwise (· < ·) ∧ ∀ x ∈ l, t ≤ x ∧ x ≤ t1) ∨
+    (iterUpC step t1 f t = .error .value ∧
+      ∃ i, (∀ j, j ≤ i → iter step j t ≤ t1) ∧ step (iter step i t) ≤ iter step i t)
+  | 0, t, h => by
+    refine Or.inl ⟨[], rfl, ⟨fun i hi => by simp at hi, ?_⟩, List.Pairwise.nil, fun x hx => by cases hx⟩
+    show t1 < t; omega
+  | f + 1, t, h => by
+    unfold iterUpC
+    by_cases hle : t ≤ t1
+    · simp only [hle, if_true]
+      by_cases hs : step t ≤ t
+      · simp only [hs, if_true]
+        refine Or.inr ⟨trivial, 0, fun j hj => ?_, hs⟩
+        have : j = 0 := by omega
+        subst this; exact hle
+      · simp only [hs, if_false]
+        rcases iterUpC_spec step t1 f (step t) (by omega) with ⟨l, e, hr, hp, hm⟩ | ⟨e, i, hi1, hi2⟩
+        · refine Or.inl ⟨t :: l, by rw [e]; rfl, ⟨fun i hi => ?_, ?_⟩, ?_, ?_⟩
+          · cases i with
+            | zero => exact ⟨rfl, hle⟩
+            | succ i => have := hr.1 i (by simpa using hi); simpa [iterate_succ'] using this
+          · simpa [iterate_succ'] using hr.2
+          · exact List.pairwise_cons.2 ⟨fun x hx => by have := hm x hx; omega, hp⟩
+          · intro x hx
+            rcases List.mem_cons.1 hx with rfl | hx
+            · omega
+            · have := hm x hx; omega
+        · refine Or.inr ⟨by rw [e]; rfl, i + 1, fun j hj => ?_, by simpa [iterate_succ'] using hi2⟩
+          cases j with
+          | zero => exact hle
+          | succ j => rw [iterate_succ']; exact hi1 j (by omega)
+    · simp only [hle, if_false]
+      refine Or.inl ⟨[], rfl, ⟨fun i hi => by simp at hi, ?_⟩, List.Pairwise.nil, fun x hx => by cases hx⟩
+      show t1 < t; omega
+
+theorem iterDownC_spec (step : Int → Int) (t1 : Int) : ∀ (f : Nat) (t : Int), (t + 1 - t1).toNat ≤ f →
+    (∃ l, iterDownC step t1 f t = .ok l ∧ IsRangeDown step t t1 l ∧ l.Pairwise (· > ·) ∧ ∀ x ∈ l, t1 ≤ x ∧ x ≤ t) ∨
+    (iterDownC step t1 f t = .error .value ∧
+      ∃ i, (∀ j, j ≤ i → t1 ≤ iter step j t) ∧ iter step i t ≤ step (iter step i t))
+  | 0, t, h => by
+    refine Or.inl ⟨[], rfl, ⟨fun i hi => by simp at hi, ?_⟩, List.Pairwise.nil, fun x hx => by cases hx⟩
+    show t < t1; omega
+  | f + 1, t, h => by
+    unfold iterDownC
+    by_cases hle : t ≥ t1
+    · simp only [hle, if_true]
+      by_cases hs : step t ≥ t
+      · simp only [hs, if_true]
+        refine Or.inr ⟨trivial, 0, fun j hj => ?_, hs⟩
+        have : j = 0 := by omega
+        subst this; exact hle
+      · simp only [hs, if_false]
+        rcases iterDownC_spec step t1 f (step t) (by omega) with ⟨l, e, hr, hp, hm⟩ | ⟨e, i, hi1, hi2⟩
+        · refine Or.inl ⟨t :: l, by rw [e]; rfl, ⟨fun i hi => ?_, ?_⟩, ?_, ?_⟩
+          · cases i with
+            | zero => exact ⟨rfl, hle⟩
+            | succ i => have := hr.1 i (by simpa using hi); simpa [iterate_succ'] using this
+          · simpa [iterate_succ'] using hr.2
+          · exact List.pairwise_cons.2 ⟨fun x hx => by have := hm x hx; omega, hp⟩
+          · intro x hx
+            rcases List.mem_cons.1 hx with rfl | hx
+            · omega
+            · have := hm x hx; omega
+        · refine Or.inr ⟨by rw [e]; rfl, i + 1, fun j hj => ?_, by simpa [iterate_succ'] using hi2⟩
+          cases j with
+          | zero => exact hle
+          | succ j => rw [iterate_succ']; exact hi1 j (by omega)
+    · simp only [hle, if_false]
+      refine Or.inl ⟨[], rfl, ⟨fun i hi => by simp at hi, ?_⟩, List.Pairwise.nil, fun x hx => by cases hx⟩
+      show t < t1; omega
+
 end Pyg.DRange
